@@ -206,6 +206,29 @@ class HistObject:
     def set_oper(self, i, od, oid):
         self._elem(i).qobj = None if od is None else hist_oper(od, oid)[0]
 
+    def edit_targets(self, i, tv):
+        """edit the element's OWN targets list object in place (reverse / item assignment / slice assignment)"""
+        lst = self._elem(i).targets          # for a Pulse: the public getter returns the stored object
+        if not isinstance(lst, list):
+            self._elem(i).targets = list(tv)
+            return
+        if len(lst) == len(tv) and lst[::-1] == list(tv) and len(tv) > 1:
+            lst.reverse()
+        elif len(lst) == len(tv):
+            for j, v in enumerate(tv):
+                if lst[j] != v:
+                    lst[j] = v
+        else:
+            lst[:] = list(tv)
+
+    def get_shared(self, dims):
+        """a request passing the SAME dims list object as the previous such request, edited in place to `dims`
+        (a caller holding one list, e.g. processor.dims)"""
+        if not hasattr(self, "shared_dims"):
+            self.shared_dims = []
+        self.shared_dims[:] = list(dims)
+        return self.get(self.shared_dims)
+
     def get(self, dims):
         """-> ("ok", [Qobj, ...]) one per output of the entry point, or (error class, None)"""
         import contextlib, io
@@ -250,6 +273,45 @@ def make_gate(name, controls, targets):
     if "arg" in GATE_KINDS[name]:
         kw["arg_value"] = GATE_KINDS[name]["arg"]
     return Gate(name, targets=list(targets), controls=(list(controls) if controls else None), **kw)
+
+
+# ------------------------------------------------------------------------------------------
+# large registers (9-12 subsystems): sparse operators, structured specification (no 2^N x 2^N dense matrix)
+def sparse_oper(od, entries):
+    """operator on subsystems `od` with the given non-zero entries [(a, b, value)], stored as CSR"""
+    import qutip, scipy.sparse as sp
+    D = int(np.prod(od))
+    a, b, v = zip(*entries)
+    m = sp.csr_matrix((np.array(v, dtype=complex), (np.array(a), np.array(b))), shape=(D, D))
+    return qutip.Qobj(m, dims=[list(od), list(od)])
+
+
+def spec_sparse(dims, targets, entries):
+    """C08's statement for a sparse operator, as a dict (row, col) -> value: for every operator entry (a, b) and every
+    assignment r of the other digits, element ((a on targets, r elsewhere), (b on targets, r elsewhere)) = value."""
+    N = len(dims)
+    W = [int(np.prod(dims[i + 1:])) for i in range(N)]
+    od = [dims[t] for t in targets]
+    rest = [i for i in range(N) if i not in targets]
+    base = np.zeros(1, dtype=np.int64)
+    for i in rest:
+        base = (base[:, None] + W[i] * np.arange(dims[i])[None, :]).ravel()
+    out = {}
+    for a, b, v in entries:
+        da = np.unravel_index(a, od) if od else ()
+        db = np.unravel_index(b, od) if od else ()
+        xa = sum(W[t] * int(x) for t, x in zip(targets, da))
+        xb = sum(W[t] * int(x) for t, x in zip(targets, db))
+        for r in base:
+            out[(int(xa + r), int(xb + r))] = complex(v)
+    return out
+
+
+def qobj_entries(q):
+    """non-zero stored entries of a (sparse) Qobj as dict (row, col) -> value"""
+    import qutip
+    m = q.to("csr").data.as_scipy().tocoo()
+    return {(int(r), int(c)): complex(v) for r, c, v in zip(m.row, m.col, m.data) if v != 0}
 
 
 def all_cases(maxN, alphabet=(2, 3, 4), maxk=3):
@@ -795,6 +857,17 @@ class C08(PropertyCheck):
                             ops = [["g", dims], ["t", i, "list", b], ["g", dims], ["q", i, od, 2], ["g", dims],
                                    ["g", d2], ["g", dims], ["t", i, "list", a], ["g", dims]]
                             yield {"kind": "history", "entry": entry, "elems": elems, "ops": ops}
+                            if isinstance(dims, int):
+                                continue
+                            # the same with IN-PLACE edits: of the element's own targets list, and of the dims list
+                            # object the caller passes again (a request reads the current contents of both)
+                            el2 = [dict(e, tv=(list(e["tv"]) if isinstance(e["tv"], list) else e["tv"])) for e in elems]
+                            yield {"kind": "history", "entry": entry, "elems": el2,
+                                   "ops": [["gi", dims], ["ti", i, b], ["gi", dims], ["ti", i, a], ["g", dims]]}
+                            same = [d for d in others if not isinstance(d, int) and len(d) == len(dims)]
+                            if same:
+                                yield {"kind": "history", "entry": entry, "elems": [dict(e) for e in el2],
+                                       "ops": [["gi", dims], ["gi", rng.choice(same)], ["gi", dims]]}
         # random histories
         for _ in range(n_random):
             entry = rng.choice(list(HIST_ENTRIES))
@@ -809,11 +882,14 @@ class C08(PropertyCheck):
                 if u < 0.4:
                     if rng.random() < 0.25:
                         dims = rng.choice(self.DIMS_POOL)
-                    ops.append(["g", dims])
+                    ops.append(["gi" if (not isinstance(dims, int) and rng.random() < 0.5) else "g", dims])
                 elif u < 0.8 and cur[i]["od"] is not None:
                     tk, tv = self._rand_targ(rng, dims, cur[i]["od"])
+                    if tk == "list" and cur[i]["tk"] == "list" and rng.random() < 0.5:
+                        ops.append(["ti", i, tv])            # in place, on the list object the element holds
+                    else:
+                        ops.append(["t", i, tk, tv])
                     cur[i].update(tk=tk, tv=tv)
-                    ops.append(["t", i, tk, tv])
                 else:
                     oid += 1
                     e = self._rand_elem(rng, dims, oid)
@@ -837,8 +913,10 @@ class C08(PropertyCheck):
         es = ";".join(f"{od_s(e['od'])}:{targ_str(e['tk'], e['tv'])}:{e['oid']}" for e in w["elems"])
         ops = []
         for op in w["ops"]:
-            if op[0] == "g":
+            if op[0] in ("g", "gi"):     # a request reads the current contents of the list it is given
                 ops.append("g:" + ("n%d" % op[1] if isinstance(op[1], int) else ",".join(map(str, op[1]))))
+            elif op[0] == "ti":          # an in-place edit of the targets list = the element carries the new contents
+                ops.append(f"t:{op[1]}:{targ_str('list', op[2])}")
             elif op[0] == "t":
                 ops.append(f"t:{op[1]}:{targ_str(op[2], op[3])}")
             else:
@@ -872,10 +950,12 @@ class C08(PropertyCheck):
         need = dict(zip(keys, fo))
         n_gets = 0
         for w, groups in zip(cases, parsed):
-            n_get = sum(1 for op in w["ops"] if op[0] == "g")
+            n_get = sum(1 for op in w["ops"] if op[0] in ("g", "gi"))
             inp = {"history": {"entry": w["entry"], "elems": w["elems"], "ops": w["ops"]}}
-            moved = any(op[0] != "g" for op in w["ops"])
-            res.case(inp, nontrivial=moved, tags=["history", f"entry={w['entry']}", f"gets={n_get}"])
+            moved = any(op[0] not in ("g",) for op in w["ops"])
+            res.case(inp, nontrivial=moved, tags=["history", f"entry={w['entry']}", f"gets={n_get}"]
+                     + (["history-inplace-targets"] if any(op[0] == "ti" for op in w["ops"]) else [])
+                     + (["history-inplace-dims"] if sum(1 for op in w["ops"] if op[0] == "gi") > 1 else []))
             if len(groups) != n_get:
                 res.disagree(inp, "one answer per request", len(groups), "history model output", w)
                 continue
@@ -890,10 +970,13 @@ class C08(PropertyCheck):
                     obj.set_oper(op[1], op[2], op[3])
                     cur_od[op[1]] = (op[2], op[3])
                     continue
+                if op[0] == "ti":
+                    obj.edit_targets(op[1], op[2])
+                    continue
                 items = groups[gi]
                 gi += 1
                 n_gets += 1
-                st, rs = obj.get(op[1])
+                st, rs = obj.get_shared(op[1]) if op[0] == "gi" else obj.get(op[1])
                 errs = [it[1] for it in items if it[0] == "err"]
                 model = errs[0] if errs else "ok"        # elements are evaluated in order; the first failure raises
                 if st != model:
@@ -1036,6 +1119,102 @@ class C08(PropertyCheck):
                          f"requests ({len(reqs)} requests), mapped to Model/EmbedArgs as read from the tree "
                          f"(dims default [2]*num_qubits: {dd}, N passed: {pn})")
 
+
+    # ---------------------------------------------------------------------------------
+    # large registers: operators covering all but 1-4 of 9-12 subsystems, mixed dimensions among the untouched ones
+    def _big_cases(self, ctx, n, maxN):
+        rng = ctx.rng
+        for _ in range(n):
+            N = rng.randint(9, maxN)
+            r = rng.randint(1, 4)
+            if rng.random() < 0.7:            # an untouched position >= 8 (the last ones), the others anywhere
+                rest = {rng.randint(8, N - 1)}
+            else:
+                rest = set()
+            while len(rest) < r:
+                rest.add(rng.randrange(N))
+            rest = sorted(rest)
+            dims = [2] * N
+            for i in rng.sample(rest, rng.randint(1, min(3, len(rest)))):
+                dims[i] = 3
+            targets = [i for i in range(N) if i not in rest]
+            if rng.random() < 0.15:
+                dims[rng.choice(targets)] = 3
+            mode = rng.random()
+            if mode < 0.5:
+                rng.shuffle(targets)
+            elif mode < 0.7:
+                targets.reverse()
+            od = [dims[t] for t in targets]
+            D = int(np.prod(od))
+            ent = {}
+            for j in range(rng.randint(1, 5)):
+                ent[(rng.randrange(D), rng.randrange(D))] = 1 + j
+            yield {"kind": "big", "dims": dims, "targets": targets, "entries": [[a, b, v] for (a, b), v in ent.items()]}
+
+    def _big_registers(self, ctx, res):
+        """sampled rows of the digit-tuple model (= the flat model by flat_eq_digits) and the dims of the result on registers
+        of 9-12 subsystems; the whole sparse result against the structured specification"""
+        drv = ctx.driver("drv_embed")
+        cases = list(self._big_cases(ctx, 120 if ctx.thorough else 36, 12 if ctx.thorough else 11))
+        lines, meta = [], []
+        for w in cases:
+            exp = spec_sparse(w["dims"], w["targets"], w["entries"])
+            rows = sorted({x for x, _y in exp})
+            rows = ctx.rng.sample(rows, min(2, len(rows)))
+            for X in rows:
+                lines.append(f"row dims={','.join(map(str, w['dims']))} targets={','.join(map(str, w['targets']))} x={X}")
+            meta.append((w, exp, rows))
+        outs = iter(drv.run(lines))
+        for w, exp, rows in meta:
+            dims, ts = w["dims"], w["targets"]
+            inp = {"big": {"dims": dims, "targets": ts, "entries": w["entries"]}}
+            res.case(inp, nontrivial=True, tags=["big-register", f"N={len(dims)}", f"untouched={len(dims) - len(ts)}"])
+            oper = sparse_oper([dims[t] for t in ts], w["entries"])
+            st, r = impl_expand(dims, ts, oper)
+            os_ = [next(outs) for _ in rows]
+            if st != "ok":
+                res.disagree(inp, "ok", st, "implementation rejects a valid embedding on a large register", w)
+                continue
+            if r.dims != [dims, dims]:
+                res.disagree(inp, dims, r.dims[0], "dims of the result on a large register", w)
+                continue
+            got = qobj_entries(r)
+            M = {(a, b): v for a, b, v in w["entries"]}
+            bad = False
+            for X, o in zip(rows, os_):
+                want = {}
+                for cell in filter(None, o[3:].strip().split(",")):
+                    Y, a, b = map(int, cell.split(":"))
+                    if (a, b) in M:
+                        want[Y] = complex(M[(a, b)])
+                have = {c: v for (rr, c), v in got.items() if rr == X}
+                if want != have:
+                    res.disagree(dict(inp, row=X), {str(k): str(v) for k, v in sorted(want.items())},
+                                 {str(k): str(v) for k, v in sorted(have.items())}, "row of the expanded operator on a large register", w)
+                    bad = True
+                    break
+            if not bad and got != exp:
+                res.disagree(inp, f"{len(exp)} entries of the specification", f"{len(got)} stored entries",
+                             "stored entries on a large register", w)
+        res.notes.append(f"large registers: {len(cases)} sparse operators covering all but 1-4 of 9-{12 if ctx.thorough else 11} subsystems, "
+                         "1-3 untouched subsystems of dimension 3 (70 % with an untouched position >= 8), targets sorted / reversed / "
+                         "shuffled: dims of the result, sampled rows against the model, all stored entries against the structured specification")
+
+    def _oracle_big(self, w):
+        dims, ts = w["dims"], w["targets"]
+        ent = [tuple(e) for e in w["entries"]]
+        st, r = impl_expand(dims, ts, sparse_oper([dims[t] for t in ts], ent))
+        if st != "ok":
+            return True, f"valid embedding rejected ({st})"
+        if r.dims != [dims, dims]:
+            return True, f"result has dims {r.dims[0]}, register is {dims}"
+        exp, got = spec_sparse(dims, ts, ent), qobj_entries(r)
+        if exp != got:
+            diff = sorted(set(exp.items()) ^ set(got.items()))[:1]
+            return True, f"stored entries differ from the specified embedding, e.g. at {diff[0][0]}"
+        return False, "equals the specified embedding"
+
     def correspondence(self, ctx, res):
         rng = ctx.rng
         self._conventions(ctx, res, 4 if ctx.thorough else 3)
@@ -1045,6 +1224,7 @@ class C08(PropertyCheck):
         self._outside(ctx, res)
         self._histories(ctx, res)
         self._gates(ctx, res)
+        self._big_registers(ctx, res)
         self._validation_exhaustive(ctx, res, 3)
         exhaustN = 4 if ctx.thorough else 3
         nrows = 8 if ctx.thorough else 6
@@ -1125,6 +1305,8 @@ class C08(PropertyCheck):
             return (v == "ok"), f"{w['case']}: {v}"
         elif w["kind"] == "args":
             return self._oracle_args(w)
+        elif w["kind"] == "big":
+            return self._oracle_big(w)
         elif w["kind"] == "history":
             return self._oracle_history(w)
         elif w["kind"] == "gate":
@@ -1199,11 +1381,15 @@ class C08(PropertyCheck):
                 obj.set_oper(op[1], op[2], op[3])
                 cur[op[1]].update(od=op[2], oid=op[3])
                 continue
+            if op[0] == "ti":
+                obj.edit_targets(op[1], op[2])
+                cur[op[1]].update(tk="list", tv=list(op[2]))
+                continue
             k += 1
             dims = [2] * op[1] if isinstance(op[1], int) else list(op[1])
             wf = [hist_wellformed(dims, c) for c in cur]
-            st, rs = obj.get(op[1])
-            where = f"request {k} ({w['entry']}, dims={op[1]}) after {sum(1 for o in w['ops'][:pos_] if o[0] != 'g')} assignment(s)"
+            st, rs = obj.get_shared(op[1]) if op[0] == "gi" else obj.get(op[1])
+            where = f"request {k} ({w['entry']}, dims={op[1]}) after {sum(1 for o in w['ops'][:pos_] if o[0] not in ('g', 'gi'))} assignment(s) / in-place edit(s)"
             if not all(f for f, _ in wf):
                 if st == "ok":
                     return True, where + ": malformed request returned a value"
@@ -1310,6 +1496,12 @@ class C08(PropertyCheck):
                 yield w, d
             if time.time() - t0 > budget_s:
                 return
+        for w in self._big_cases(ctx, 150, 12):
+            f, d = self.oracle_replay(ctx, w)
+            if f:
+                yield w, d
+            if time.time() - t0 > budget_s / 3:
+                break
         for w in self._object_witnesses(ctx, 300, 200):
             f, d = self.oracle_replay(ctx, w)
             if f:
@@ -1356,6 +1548,10 @@ class C08(PropertyCheck):
         return w
 
     def oracle_always(self, ctx):
+        for w in self._big_cases(ctx, 12, 11):
+            f, d = self.oracle_replay(ctx, w)
+            if f:
+                yield w, d
         for w in self._object_witnesses(ctx, 60, 40):
             f, d = self.oracle_replay(ctx, w)
             if f:
